@@ -159,6 +159,23 @@ def default_cfg(**kw):
 
 # ---------------------------------------------------------------------------------------
 # running a history on the real implementation
+class Val(int):
+    """an argument value with an identity: the callback must receive the very object that was supplied
+    (a copy made by the library is a different object although it prints and compares the same)"""
+
+
+def identity_lost(sent, args, kwargs):
+    """sent = (tuple of Val | None, dict of Val | None) as supplied; received args/kwargs of one invocation"""
+    s_args, s_kw = sent
+    for a, b in zip(s_args or (), args):
+        if a is not b:
+            return True
+    for k, v in (s_kw or {}).items():
+        if k in kwargs and kwargs[k] is not v:
+            return True
+    return False
+
+
 class CallbackFailure(Exception):
     pass
 
@@ -215,6 +232,7 @@ class Impl:
         self.jobs = {}       # id -> Job (every job object created)
         self.next_id = 0
         self.events = []
+        self.sent = {}       # id -> (args tuple, kwargs dict) objects supplied to the scheduling call
         self.table = {}      # current scripted priority table (id -> Fraction)
         self.prio_kind = "linear"
         self.lines = []      # annotated DSL
@@ -251,6 +269,8 @@ class Impl:
             impl.events.append("EV inv %d %d [%s] {%s}" % (
                 jid, due, ",".join(str(a) for a in args),
                 ",".join("%s:%s" % (k[1:], v) for k, v in kwargs.items())))
+            if jid in impl.sent and identity_lost(impl.sent[jid], args, kwargs):
+                impl.events.append("EV identity-lost %d" % jid)   # never produced by the model
             for o in prog:
                 impl.do_cbop(o, [])  # an exception here is the callback's exception
             if n < len(outs) and outs[n]:
@@ -263,8 +283,10 @@ class Impl:
         kw = dict(
             max_attempts=c["max"], tags={tagname(t) for t in c["tags"]},
             skip_missing=c["skip"], weight=self.weight(c),
-            args=tuple(c["args"]) if c["args"] else None,
-            kwargs={"k%d" % k: v for k, v in c["kwargs"]} if c["kwargs"] else None)
+            args=tuple(Val(a) for a in c["args"]) if c["args"] else None,
+            kwargs={"k%d" % k: Val(v) for k, v in c["kwargs"]} if c["kwargs"] else None)
+        # the objects supplied (the dict itself is mutated by the harness later, its values are not)
+        self.sent[jid] = (kw["args"], dict(kw["kwargs"]) if kw["kwargs"] else None)
         if not c["delay"]:
             kw["delay"] = False
         if c["start"] is not None:
@@ -303,8 +325,10 @@ class Impl:
                 else:
                     t = self.m["trigger"].weekday(ot[1], mk_time(ot[2]))
                 caller_tags = self.once_tags(c)
-                caller_kwargs = {"k%d" % kk: v for kk, v in c["kwargs"]} if c["kwargs"] else None
-                job = sch.once(t, cb, args=tuple(c["args"]) if c["args"] else None,
+                caller_kwargs = {"k%d" % kk: Val(v) for kk, v in c["kwargs"]} if c["kwargs"] else None
+                once_args = tuple(Val(a) for a in c["args"]) if c["args"] else None
+                self.sent[jid] = (once_args, dict(caller_kwargs) if caller_kwargs else None)
+                job = sch.once(t, cb, args=once_args,
                                kwargs=caller_kwargs, tags=caller_tags, weight=self.weight(c))
             # C19/C11: the scheduler must be insulated from later mutation of the caller's objects
             # and of the set handed out by the tags property
